@@ -274,6 +274,49 @@ def k1_tour_identity(F, r):
         r.fail("check_jobs_presence: tour identity", "the tour a job was first seen in is no longer compared with the current tour", F.loc(root))
 
 
+def t1_routing_tolerance(F, r):
+    """routing rule: a reported arrival / distance / duration is rejected iff it differs from the recomputed one by MORE than one unit (the output format rounds to integers),
+    and like is compared with like"""
+    from . import c01
+    n = 0
+    for fid, fn in sorted(F.fns.items()):
+        if "::promoted[" in fid or not F.fns.get(F.root_of(fid), fn)["module"].startswith(CHK + "::routing"):
+            continue
+        for bi, si, st in mir.stmts(fn):
+            rv = st["r"]
+            if rv["k"] != "bin" or rv.get("op") not in ("Lt", "Gt", "Le", "Ge"):
+                continue
+            sides = []
+            for o in rv["o"]:
+                if mir.is_const(o):
+                    sides.append(("const", o["c"]))
+                else:
+                    tr = mir.trace(fn, o, through_calls=())
+                    ab = [v for k, v, p in tr if k == "call" and fn["bbs"][v]["t"]["callee"].endswith("::abs")]
+                    sides.append(("abs", ab[0]) if ab else ("other", None))
+            kinds = [x[0] for x in sides]
+            if sorted(kinds) != ["abs", "const"]:
+                continue
+            n += 1
+            ai = kinds.index("abs")
+            op = rv["op"] if ai == 0 else {"Lt": "Gt", "Gt": "Lt", "Le": "Ge", "Ge": "Le"}[rv["op"]]
+            cst = str(sides[1 - ai][1])
+            abs_t = fn["bbs"][sides[ai][1]]["t"]
+            toks = c01._toks(fn, abs_t["args"][0])
+            kind = {k for k in ("distance", "duration", "arrival", "departure") if any(k in x for x in toks)}
+            name = f"{util.short_fn(F.root_of(fid))}: |Δ{'/'.join(sorted(kind)) or '?'}|"
+            if not cst.startswith("1_") and cst != "1":
+                r.fail(name, f"the tolerance is {cst}, not one unit: deviations the property forbids are accepted (or exact values rejected)", F.loc(fid, st.get("ln")))
+            elif op != "Gt":
+                r.fail(name, f"a mismatch is reported on `|Δ| {op} 1`: a deviation of exactly one unit (the rounding of the output format) is rejected, or larger ones accepted", F.loc(fid, st.get("ln")))
+            elif len(kind & {"distance", "duration"}) == 2:
+                r.fail(name, "a distance is compared with a duration", F.loc(fid, st.get("ln")))
+            else:
+                r.ok(name, "mismatch iff |recomputed - reported| > 1")
+    if n < 4:
+        raise AnchorError(f"only {n} tolerance comparisons found in the routing rule (4 counted)")
+
+
 def run(ctx):
     ctx.explanation = (
         "Structural clauses of `the checker rejects injected breaches`: every rule function of the checker (return type Result<(), GenericError|Vec<..>>) is "
@@ -290,6 +333,7 @@ def run(ctx):
         ctx.run("C01-O3", "can_fit(capacity, load) iff load <= capacity in every dimension", c01.o3_can_fit_law, floor=4)
     except (ImportError, AttributeError):
         pass
+    ctx.run("C12-T1", "routing rule: mismatch iff |recomputed - reported| > 1, like compared with like", t1_routing_tolerance, floor=4)
     ctx.run("C12-K1", "a tour is identified by (vehicle id, shift index) in the job-presence rule", k1_tour_identity, floor=1)
     ctx.run("C12-L1", "limit rules: breach iff the tour's own distance / duration / activity count exceeds the limit", l1_limit_rules, floor=1)
     ctx.run("C12-Q1", "no checker comparison relates a value to itself (a constant verdict)", q1_no_self_comparison, floor=1)
